@@ -95,7 +95,6 @@ def oracle_view(kind, inst):
     if k == "mtsp":
         o["num_agents"] = scalar(o["num_agents"])
     if k == "mdcpdp":
-        o["capacity"] = scalar(o["capacity"])
         o["lateness_weight"] = scalar(o["lateness_weight"])
     return o
 
